@@ -72,6 +72,11 @@ def gen(rng, tier, idx):
                'chunks': [sorted([rng.randint(0, n), rng.randint(0, n)]) for _ in range(3)],
                'batches': [rng.sample(range(n), rng.randint(1, min(n, 400))) for _ in range(3)],
                'odd_batches': [[], [0, 0], [n - 1, 0, n - 1]]}
+        # read - replace - read: the file at the same path is replaced (atomic rename) by another valid matrix while
+        # the first iterator is still referenced, and a second iterator is opened on the path
+        if rng.random() < 0.2:
+            acc['replace'] = {'seed': rng.randrange(2 ** 31), 'same_shape': rng.random() < 0.5,
+                              'n_rows': rng.choice([1, 2, 5, 9]), 'n_cols': rng.choice([1, 3, 6])}
         fault = None
         r = rng.random()
         if m['encoding'] == 'csc' and r < 0.12:
@@ -185,6 +190,31 @@ def run_iter(scn, sb, res):
                                or not np.array_equal(out.astype(float), M[batch].astype(float))):
                 bad.append(('get-batch-silent-wrong-data', 'get_batch(%r) returned wrong data without an error'
                             % (batch,)))
+        rp = acc.get('replace')
+        if rp and not fault:
+            m2 = dict(m, seed=rp['seed'])
+            if not rp['same_shape']:
+                m2.update(n_rows=rp['n_rows'], n_cols=rp['n_cols'])
+            M2 = make_matrix(m2)
+            tmp2 = sb.p('in', 'm_new.h5ad')
+            world.write_h5ad(tmp2, M2, ['d%d' % i for i in range(M2.shape[0])],
+                             ['g%d' % i for i in range(M2.shape[1])], encoding=m['encoding'], dtype=m['dtype'],
+                             layer=m['layer'], chunks=tuple(m['h5_chunks']) if m['h5_chunks'] else None)
+            os.replace(tmp2, path)
+            it2 = AnnDataRowIterator(h5ad_path=path, row_chunk_size=acc['row_chunk_size'],
+                                     layer=m['layer'] or 'X', tmp_dir=sb.p('scratch') if acc['tmp_dir'] else None,
+                                     max_gb=acc['max_gb'], keep_open=acc['keep_open'])
+            pr['read_replace_read'] = 1
+            if it2.n_rows != M2.shape[0]:
+                bad.append(('stale-after-replace', 'second iterator on the replaced file reports n_rows %r for %d rows'
+                            % (it2.n_rows, M2.shape[0])))
+            else:
+                got = [dense(ch) for ch, _, _ in it2]
+                got = np.vstack(got) if got else np.zeros((0, M2.shape[1]))
+                if got.shape != M2.shape or not np.array_equal(got.astype(float), M2.astype(float)):
+                    bad.append(('stale-after-replace', 'second iterator on the replaced file does not return the new '
+                                'file\'s rows (first iterator still referenced)'))
+            del it2
         del it
         gc.collect()
         return bad, len(rows), nj
